@@ -3,4 +3,5 @@ import BertE.Props.C01
 import BertE.Props.C03
 import BertE.Props.C06
 import BertE.Props.C07
+import BertE.Props.C09
 import BertE.Props.C18
